@@ -1,2 +1,815 @@
+(* C13/Lemmas.v — proofs about Model.v *)
 From Common Require Import Prelude.
 From C13 Require Import Model.
+Open Scope Z_scope.
+
+(* ---------------------------------------------------------------------------------------- *)
+(* lists *)
+Lemma nodup_map_inj {A} (f : A -> Z) (l : list A) a b :
+  NoDup (map f l) -> In a l -> In b l -> f a = f b -> a = b.
+Proof.
+  induction l as [|x l IH]; cbn; intros ND Ha Hb E; [contradiction|].
+  inversion ND as [|? ? Hn ND']; subst.
+  destruct Ha as [Ha|Ha], Hb as [Hb|Hb]; subst; auto.
+  - exfalso. apply Hn. rewrite E. apply in_map. exact Hb.
+  - exfalso. apply Hn. rewrite <- E. apply in_map. exact Ha.
+Qed.
+
+Lemma nodup_map_filter {A} (f : A -> Z) (p : A -> bool) (l : list A) :
+  NoDup (map f l) -> NoDup (map f (filter p l)).
+Proof.
+  induction l as [|x l IH]; cbn; intros ND; [constructor|].
+  inversion ND as [|? ? Hn ND']; subst.
+  destruct (p x); cbn; auto. constructor; auto.
+  intro H. apply Hn. apply in_map_iff in H as [y [E Hy]]. apply filter_In in Hy as [Hy _].
+  rewrite <- E. apply in_map. exact Hy.
+Qed.
+
+Lemma find_none_filter {A} (p : A -> bool) (l : list A) :
+  find p l = None -> filter (fun x => negb (p x)) l = l.
+Proof.
+  induction l as [|x l IH]; cbn; auto. destruct (p x) eqn:E; [discriminate|].
+  intro H. cbn. f_equal. auto.
+Qed.
+
+Lemma existsb_find {A} (p : A -> bool) (l : list A) :
+  existsb p l = match find p l with Some _ => true | None => false end.
+Proof. induction l as [|x l IH]; cbn; auto. destruct (p x); auto. Qed.
+
+(* ---------------------------------------------------------------------------------------- *)
+(* dict / timers in step *)
+Definition rm (n : Z) (ts : list timer) : list timer := filter (fun t => negb (name_is n t)) ts.
+Definition rmid (u : Z) (ts : list timer) : list timer := filter (fun t => negb (id_is u t)) ts.
+
+Lemma dict_find_map n ts : dict_find n (map entry_of ts) = option_map entry_of (find (name_is n) ts).
+Proof.
+  induction ts as [|t ts IH]; cbn; auto.
+  unfold ename_is, name_is in *. cbn. destruct (t_name t =? n); auto.
+Qed.
+
+Lemma dict_del_map n ts : dict_del n (map entry_of ts) = map entry_of (rm n ts).
+Proof.
+  induction ts as [|t ts IH]; cbn; auto.
+  unfold ename_is, name_is in *. cbn. destruct (t_name t =? n); cbn; auto. f_equal. exact IH.
+Qed.
+
+Lemma is_live_in u ts : is_live u ts = true <-> exists tm, In tm ts /\ t_id tm = u.
+Proof.
+  unfold is_live. rewrite existsb_exists. unfold id_is.
+  split; intros [tm [H1 H2]]; exists tm; split; auto; [apply Z.eqb_eq|apply Z.eqb_eq]; auto.
+Qed.
+
+Lemma is_live_rmid u ts : is_live u (rmid u ts) = false.
+Proof.
+  destruct (is_live u (rmid u ts)) eqn:E; auto.
+  apply is_live_in in E as [tm [H1 H2]]. apply filter_In in H1 as [_ H1].
+  unfold id_is in H1. rewrite H2, Z.eqb_refl in H1. discriminate.
+Qed.
+
+Lemma rmid_rm ts tm :
+  NoDup (map t_name ts) -> NoDup (map t_id ts) -> In tm ts -> rmid (t_id tm) ts = rm (t_name tm) ts.
+Proof.
+  intros N1 N2 Hin. apply filter_ext_in. intros t Ht. f_equal. unfold id_is, name_is.
+  destruct (Z.eqb_spec (t_id t) (t_id tm)) as [E|E], (Z.eqb_spec (t_name t) (t_name tm)) as [F|F]; auto.
+  - exfalso. apply F. f_equal. apply (nodup_map_inj t_id ts); auto.
+  - exfalso. apply E. f_equal. apply (nodup_map_inj t_name ts); auto.
+Qed.
+
+Lemma find_name_some n ts tm : find (name_is n) ts = Some tm -> In tm ts /\ t_name tm = n.
+Proof. intro H. apply find_some in H as [H1 H2]. split; auto. apply Z.eqb_eq. exact H2. Qed.
+
+Lemma find_id_some u ts tm : find (id_is u) ts = Some tm -> In tm ts /\ t_id tm = u.
+Proof. intro H. apply find_some in H as [H1 H2]. split; auto. apply Z.eqb_eq. exact H2. Qed.
+
+Lemma in_rm n ts t : In t (rm n ts) <-> In t ts /\ t_name t <> n.
+Proof.
+  unfold rm. rewrite filter_In. unfold name_is.
+  destruct (Z.eqb_spec (t_name t) n); cbn; intuition congruence.
+Qed.
+
+Lemma in_rmid u ts t : In t (rmid u ts) <-> In t ts /\ t_id t <> u.
+Proof.
+  unfold rmid. rewrite filter_In. unfold id_is.
+  destruct (Z.eqb_spec (t_id t) u); cbn; intuition congruence.
+Qed.
+
+(* normal form of remove(name) when dict mirrors the live handles *)
+Definition removed (n : Z) (st : state) : state :=
+  match find (name_is n) (timers st) with
+  | None => st
+  | Some tm => mkS (now st) (next st) (map entry_of (rm n (timers st))) (rm n (timers st))
+                   (EKill (t_id tm) :: log st)
+  end.
+
+Definition wf (st : state) : Prop :=
+  dict st = map entry_of (timers st) /\ NoDup (map t_name (timers st)) /\ NoDup (map t_id (timers st)).
+
+Lemma do_remove_nf n st : wf st -> do_remove n st = removed n st.
+Proof.
+  intros [D [N1 N2]]. unfold do_remove, removed. rewrite D, dict_find_map.
+  destruct (find (name_is n) (timers st)) as [tm|] eqn:F; cbn; auto.
+  apply find_name_some in F as [Hin Hn]. unfold do_cancel. cbn.
+  assert (L : is_live (t_id tm) (timers st) = true) by (apply is_live_in; eauto).
+  unfold is_live in L. rewrite L. fold (rmid (t_id tm) (timers st)). rewrite rmid_rm by auto. rewrite Hn.
+  rewrite dict_del_map. reflexivity.
+Qed.
+
+Lemma clear_one_eq st n : clear_one st n = do_remove n st.
+Proof.
+  unfold clear_one, do_remove. destruct (dict_find n (dict st)) as [e|] eqn:F; auto.
+  destruct st as [nw nx d ts lg]. cbn in *. unfold do_cancel, is_live. cbn.
+  destruct (existsb (id_is (e_tid e)) ts) eqn:L; cbn; rewrite F; cbn.
+  - fold (rmid (e_tid e) ts). pose proof (is_live_rmid (e_tid e) ts) as R. unfold is_live in R.
+    rewrite R. reflexivity.
+  - rewrite L. reflexivity.
+Qed.
+
+(* ---------------------------------------------------------------------------------------- *)
+(* the log discipline: every event is justified by its past *)
+Definition called (u : Z) (l : list ev) : Prop := exists t c k rn, In (ECall t u c k rn) l.
+Definition called_with (u c : Z) (k : kwargs) (l : list ev) : Prop := exists t rn, In (ECall t u c k rn) l.
+
+Definition justified (past : list ev) (e : ev) : Prop :=
+  match e with
+  | ECall t u c k rn =>
+      (exists t0 n ms, In (EAdd t0 u n ms c k) past /\ (rn = false -> t = t0 + 1000 * ms)) /\
+      ~ called u past /\
+      (if rn then exists past', past = EKill u :: past' else ~ In (EKill u) past)
+  | EKill u => ~ In (EKill u) past /\ ~ called u past
+  | ECheck n b g => b = g
+  | EAdd t0 u n ms c k => forall t0' n' ms' c' k', ~ In (EAdd t0' u n' ms' c' k') past
+  | _ => True
+  end.
+
+Fixpoint log_ok (l : list ev) : Prop :=
+  match l with [] => True | e :: past => justified past e /\ log_ok past end.
+
+Lemma log_ok_split l : log_ok l -> forall l1 e l2, l = l1 ++ e :: l2 -> justified l2 e.
+Proof.
+  induction l as [|x l IH]; intros H l1 e l2 E.
+  - destruct l1; discriminate.
+  - destruct l1 as [|y l1]; cbn in E; inversion E; subst.
+    + apply H.
+    + eapply IH; [apply H | reflexivity].
+Qed.
+
+Lemma log_ok_in l e : log_ok l -> In e l -> exists l1 l2, l = l1 ++ e :: l2 /\ justified l2 e.
+Proof.
+  intros H Hin. apply in_split in Hin as [l1 [l2 E]]. exists l1, l2. split; auto.
+  eapply log_ok_split; eauto.
+Qed.
+
+Lemma add_unique l : log_ok l -> forall t0 u n ms c k t0' n' ms' c' k',
+  In (EAdd t0 u n ms c k) l -> In (EAdd t0' u n' ms' c' k') l ->
+  EAdd t0 u n ms c k = EAdd t0' u n' ms' c' k'.
+Proof.
+  induction l as [|x l IH]; intros H t0 u n ms c k t0' n' ms' c' k' H1 H2; [contradiction|].
+  destruct H as [J H]. destruct H1 as [H1|H1], H2 as [H2|H2].
+  - congruence.
+  - subst x. cbn in J. exfalso. eapply J; eauto.
+  - subst x. cbn in J. exfalso. eapply J; eauto.
+  - eapply IH; eauto.
+Qed.
+
+(* ---------------------------------------------------------------------------------------- *)
+(* the invariant *)
+Definition inv_core (nx : Z) (ts : list timer) (lg : list ev) : Prop :=
+  NoDup (map t_name ts) /\ NoDup (map t_id ts) /\
+  (forall tm, In tm ts -> t_id tm < nx) /\
+  (forall t0 u n ms c k, In (EAdd t0 u n ms c k) lg -> u < nx) /\
+  (forall u, In (EKill u) lg -> u < nx) /\
+  (forall u, called u lg -> u < nx) /\
+  (forall tm, In tm ts -> exists t0 ms,
+        In (EAdd t0 (t_id tm) (t_name tm) ms (t_cb tm) (t_kw tm)) lg /\ t_when tm = t0 + 1000 * ms) /\
+  (forall tm, In tm ts -> ~ In (EKill (t_id tm)) lg /\ ~ called (t_id tm) lg) /\
+  (forall t0 u n ms c k, In (EAdd t0 u n ms c k) lg ->
+        is_live u ts = true \/ In (EKill u) lg \/ called_with u c k lg) /\
+  log_ok lg.
+
+Definition Inv (st : state) : Prop :=
+  dict st = map entry_of (timers st) /\ inv_core (next st) (timers st) (log st).
+
+Lemma Inv_wf st : Inv st -> wf st.
+Proof. intros [D [N1 [N2 _]]]. repeat split; auto. Qed.
+
+Lemma called_cons_other u e l : (forall t c k rn, e <> ECall t u c k rn) -> called u (e :: l) -> called u l.
+Proof.
+  intros Hne [t [c [k [rn [H|H]]]]]; [exfalso; eapply Hne; eauto|]. exists t, c, k, rn. exact H.
+Qed.
+
+Lemma called_cons u e l : called u l -> called u (e :: l).
+Proof. intros [t [c [k [rn H]]]]. exists t, c, k, rn. right. exact H. Qed.
+
+Lemma called_with_cons u c k e l : called_with u c k l -> called_with u c k (e :: l).
+Proof. intros [t [rn H]]. exists t, rn. right. exact H. Qed.
+
+Ltac finish_inv := unfold inv_core; repeat (split; [assumption|]); assumption.
+
+(* harmless events *)
+Definition harmless (e : ev) : Prop :=
+  match e with ECheck n b g => b = g | EDict _ => True | EOof => True | EReject _ => True | _ => False end.
+
+Lemma inv_core_harmless nx ts lg e : harmless e -> inv_core nx ts lg -> inv_core nx ts (e :: lg).
+Proof.
+  intros He (N1 & N2 & I3 & I4 & I4k & I4c & I5 & I6 & I7 & I8).
+  assert (NA : forall t0 u n ms c k, In (EAdd t0 u n ms c k) (e :: lg) -> In (EAdd t0 u n ms c k) lg)
+    by (intros ? ? ? ? ? ? [H|H]; [subst e; contradiction|exact H]).
+  assert (NK : forall u, In (EKill u) (e :: lg) -> In (EKill u) lg)
+    by (intros ? [H|H]; [subst e; contradiction|exact H]).
+  assert (NC : forall u, called u (e :: lg) -> called u lg)
+    by (intros u; apply called_cons_other; intros; intro; subst e; contradiction).
+  assert (C4 : forall t0 u n ms c k, In (EAdd t0 u n ms c k) (e :: lg) -> u < nx) by (intros; eapply I4; eauto).
+  assert (C4k : forall u, In (EKill u) (e :: lg) -> u < nx) by auto.
+  assert (C4c : forall u, called u (e :: lg) -> u < nx) by auto.
+  assert (C5 : forall tm, In tm ts -> exists t0 ms,
+        In (EAdd t0 (t_id tm) (t_name tm) ms (t_cb tm) (t_kw tm)) (e :: lg) /\ t_when tm = t0 + 1000 * ms).
+  { intros tm Hin. destruct (I5 tm Hin) as [t0 [ms [H1 H2]]]. exists t0, ms. split; auto. right; auto. }
+  assert (C6 : forall tm, In tm ts -> ~ In (EKill (t_id tm)) (e :: lg) /\ ~ called (t_id tm) (e :: lg)).
+  { intros tm Hin. split; intro H; [apply NK in H; apply (proj1 (I6 tm Hin)); auto|
+                                    apply NC in H; apply (proj2 (I6 tm Hin)); auto]. }
+  assert (C7 : forall t0 u n ms c k, In (EAdd t0 u n ms c k) (e :: lg) ->
+        is_live u ts = true \/ In (EKill u) (e :: lg) \/ called_with u c k (e :: lg)).
+  { intros t0 u n ms c k H. apply NA in H. destruct (I7 _ _ _ _ _ _ H) as [A|[A|A]]; auto.
+    - right; left; right; auto.
+    - right; right. apply called_with_cons; auto. }
+  assert (C8 : log_ok (e :: lg)) by (cbn; split; auto; destruct e; cbn in *; auto; contradiction).
+  finish_inv.
+Qed.
+
+(* next may only grow *)
+Lemma inv_core_skip nx ts lg : inv_core nx ts lg -> inv_core (nx + 1) ts lg.
+Proof.
+  intros (N1 & N2 & I3 & I4 & I4k & I4c & I5 & I6 & I7 & I8).
+  assert (C3 : forall tm, In tm ts -> t_id tm < nx + 1) by (intros tm H; apply I3 in H; lia).
+  assert (C4 : forall t0 u n ms c k, In (EAdd t0 u n ms c k) lg -> u < nx + 1) by (intros; enough (u < nx) by lia; eauto).
+  assert (C4k : forall u, In (EKill u) lg -> u < nx + 1) by (intros u H; apply I4k in H; lia).
+  assert (C4c : forall u, called u lg -> u < nx + 1) by (intros u H; apply I4c in H; lia).
+  finish_inv.
+Qed.
+
+(* T1: cancel + remove the handle named n *)
+Lemma inv_core_remove nx ts lg n tm :
+  find (name_is n) ts = Some tm -> inv_core nx ts lg -> inv_core nx (rm n ts) (EKill (t_id tm) :: lg).
+Proof.
+  intros F (N1 & N2 & I3 & I4 & I4k & I4c & I5 & I6 & I7 & I8).
+  apply find_name_some in F as [Hin Hn].
+  set (lg' := EKill (t_id tm) :: lg).
+  assert (DIFF : forall t, In t (rm n ts) -> t_id t <> t_id tm).
+  { intros t Ht E. apply in_rm in Ht as [Ht Hne]. apply Hne. rewrite <- Hn. f_equal.
+    apply (nodup_map_inj t_id ts); auto. }
+  assert (C1 : NoDup (map t_name (rm n ts))) by (apply nodup_map_filter; auto).
+  assert (C2 : NoDup (map t_id (rm n ts))) by (apply nodup_map_filter; auto).
+  assert (C3 : forall t, In t (rm n ts) -> t_id t < nx) by (intros t Ht; apply in_rm in Ht as [Ht _]; auto).
+  assert (C4 : forall t0 u n ms c k, In (EAdd t0 u n ms c k) lg' -> u < nx)
+    by (intros ? ? ? ? ? ? [H|H]; [discriminate|eauto]).
+  assert (C4k : forall u, In (EKill u) lg' -> u < nx)
+    by (intros u [H|H]; [inversion H; subst; auto|auto]).
+  assert (C4c : forall u, called u lg' -> u < nx)
+    by (intros u H; apply I4c; eapply called_cons_other; eauto; intros; discriminate).
+  assert (C5 : forall t, In t (rm n ts) -> exists t0 ms,
+        In (EAdd t0 (t_id t) (t_name t) ms (t_cb t) (t_kw t)) lg' /\ t_when t = t0 + 1000 * ms).
+  { intros t Ht. apply in_rm in Ht as [Ht _]. destruct (I5 t Ht) as [t0 [ms [H1 H2]]].
+    exists t0, ms. split; auto. right; auto. }
+  assert (C6 : forall t, In t (rm n ts) -> ~ In (EKill (t_id t)) lg' /\ ~ called (t_id t) lg').
+  { intros t Ht. pose proof (DIFF t Ht) as D. apply in_rm in Ht as [Ht _]. split.
+    - intros [H|H]; [inversion H; congruence|apply (proj1 (I6 t Ht)); auto].
+    - intro H. apply (proj2 (I6 t Ht)). eapply called_cons_other; eauto. intros; discriminate. }
+  assert (C7 : forall t0 u n' ms c k, In (EAdd t0 u n' ms c k) lg' ->
+        is_live u (rm n ts) = true \/ In (EKill u) lg' \/ called_with u c k lg').
+  { intros t0 u n' ms c k [H|H]; [discriminate|].
+    destruct (I7 _ _ _ _ _ _ H) as [A|[A|A]].
+    - destruct (Z.eq_dec u (t_id tm)) as [E|E].
+      + right; left; left. congruence.
+      + left. apply is_live_in in A as [t [Ht Hu]]. apply is_live_in. exists t. split; auto.
+        apply in_rm. split; auto. intro Hname. apply E. rewrite <- Hu. f_equal.
+        apply (nodup_map_inj t_name ts); auto. congruence.
+    - right; left; right; auto.
+    - right; right. apply called_with_cons; auto. }
+  assert (C8 : log_ok lg') by (cbn; split; auto; exact (I6 tm Hin)).
+  finish_inv.
+Qed.
+
+Lemma Inv_removed n st : Inv st -> Inv (removed n st).
+Proof.
+  intros [D I]. unfold removed. destruct (find (name_is n) (timers st)) as [tm|] eqn:F.
+  - split; cbn; auto. apply inv_core_remove; auto.
+  - split; auto.
+Qed.
+
+Lemma Inv_do_remove n st : Inv st -> Inv (do_remove n st).
+Proof. intro H. rewrite do_remove_nf by (apply Inv_wf; auto). apply Inv_removed; auto. Qed.
+
+Lemma timers_removed n st : timers (removed n st) = rm n (timers st).
+Proof.
+  unfold removed. destruct (find (name_is n) (timers st)) eqn:F; cbn; auto.
+  symmetry. apply find_none_filter. exact F.
+Qed.
+
+Lemma next_removed n st : next (removed n st) = next st.
+Proof. unfold removed. destruct (find (name_is n) (timers st)); auto. Qed.
+Lemma now_removed n st : now (removed n st) = now st.
+Proof. unfold removed. destruct (find (name_is n) (timers st)); auto. Qed.
+
+Lemma NoDup_snoc (l : list Z) x : NoDup l -> ~ In x l -> NoDup (l ++ [x]).
+Proof.
+  induction l as [|y l IH]; cbn; intros ND Hn; [constructor; auto; constructor|].
+  inversion ND; subst. constructor.
+  - intro H. apply in_app_or in H as [H|[H|[]]]; auto.
+  - apply IH; auto.
+Qed.
+
+(* T2: schedule a new handle *)
+Lemma inv_core_add nx ts lg tnow ms n cb kw :
+  (forall t, In t ts -> t_name t <> n) ->
+  inv_core nx ts lg ->
+  inv_core (nx + 1) (ts ++ [mkT nx (tnow + 1000 * ms) n cb kw]) (EAdd tnow nx n ms cb kw :: lg).
+Proof.
+  intros FR (N1 & N2 & I3 & I4 & I4k & I4c & I5 & I6 & I7 & I8).
+  set (new := mkT nx (tnow + 1000 * ms) n cb kw). set (lg' := EAdd tnow nx n ms cb kw :: lg).
+  assert (C1 : NoDup (map t_name (ts ++ [new]))).
+  { rewrite map_app. cbn. apply NoDup_snoc; auto.
+    intro H. apply in_map_iff in H as [t [E Ht]]. eapply FR; eauto. }
+  assert (C2 : NoDup (map t_id (ts ++ [new]))).
+  { rewrite map_app. cbn. apply NoDup_snoc; auto.
+    intro H. apply in_map_iff in H as [t [E Ht]]. apply I3 in Ht. lia. }
+  assert (C3 : forall t, In t (ts ++ [new]) -> t_id t < nx + 1).
+  { intros t Ht. apply in_app_or in Ht as [Ht|[Ht|[]]]; [apply I3 in Ht; lia|subst; cbn; lia]. }
+  assert (C4 : forall t0 u n ms c k, In (EAdd t0 u n ms c k) lg' -> u < nx + 1).
+  { intros ? ? ? ? ? ? [H|H]; [inversion H; lia|apply I4 in H; lia]. }
+  assert (C4k : forall u, In (EKill u) lg' -> u < nx + 1).
+  { intros u [H|H]; [discriminate|apply I4k in H; lia]. }
+  assert (C4c : forall u, called u lg' -> u < nx + 1).
+  { intros u H. apply called_cons_other in H; [apply I4c in H; lia|intros; discriminate]. }
+  assert (C5 : forall t, In t (ts ++ [new]) -> exists t0 ms,
+        In (EAdd t0 (t_id t) (t_name t) ms (t_cb t) (t_kw t)) lg' /\ t_when t = t0 + 1000 * ms).
+  { intros t Ht. apply in_app_or in Ht as [Ht|[Ht|[]]].
+    - destruct (I5 t Ht) as [t0 [ms0 [H1 H2]]]. exists t0, ms0. split; auto. right; auto.
+    - subst t. cbn. exists tnow, ms. split; auto. }
+  assert (C6 : forall t, In t (ts ++ [new]) -> ~ In (EKill (t_id t)) lg' /\ ~ called (t_id t) lg').
+  { intros t Ht. split.
+    - intros [H|H]; [discriminate|]. apply in_app_or in Ht as [Ht|[Ht|[]]].
+      + apply (proj1 (I6 t Ht)); auto.
+      + subst t. cbn in H. apply I4k in H. lia.
+    - intro H. apply called_cons_other in H; [|intros; discriminate].
+      apply in_app_or in Ht as [Ht|[Ht|[]]].
+      + apply (proj2 (I6 t Ht)); auto.
+      + subst t. cbn in H. apply I4c in H. lia. }
+  assert (C7 : forall t0 u n' ms' c k, In (EAdd t0 u n' ms' c k) lg' ->
+        is_live u (ts ++ [new]) = true \/ In (EKill u) lg' \/ called_with u c k lg').
+  { intros t0 u n' ms' c k [H|H].
+    - inversion H; subst. left. apply is_live_in. exists new. split; [apply in_or_app; right; left; reflexivity|reflexivity].
+    - destruct (I7 _ _ _ _ _ _ H) as [A|[A|A]].
+      + left. unfold is_live in *. rewrite existsb_app, A. reflexivity.
+      + right; left; right; auto.
+      + right; right. apply called_with_cons; auto. }
+  assert (C8 : log_ok lg').
+  { cbn. split; auto. intros t0' n' ms' c' k' H. apply I4 in H. lia. }
+  finish_inv.
+Qed.
+
+(* T5: the loop runs handle u (not cancelled) *)
+Lemma inv_core_fire nx ts lg u tm :
+  find (id_is u) ts = Some tm -> inv_core nx ts lg ->
+  inv_core nx (rmid u ts) (ECall (t_when tm) u (t_cb tm) (t_kw tm) false :: lg).
+Proof.
+  intros F (N1 & N2 & I3 & I4 & I4k & I4c & I5 & I6 & I7 & I8).
+  apply find_id_some in F as [Hin Hu].
+  set (lg' := ECall (t_when tm) u (t_cb tm) (t_kw tm) false :: lg).
+  assert (C1 : NoDup (map t_name (rmid u ts))) by (apply nodup_map_filter; auto).
+  assert (C2 : NoDup (map t_id (rmid u ts))) by (apply nodup_map_filter; auto).
+  assert (C3 : forall t, In t (rmid u ts) -> t_id t < nx) by (intros t Ht; apply in_rmid in Ht as [Ht _]; auto).
+  assert (C4 : forall t0 u n ms c k, In (EAdd t0 u n ms c k) lg' -> u < nx)
+    by (intros ? ? ? ? ? ? [H|H]; [discriminate|eauto]).
+  assert (C4k : forall u, In (EKill u) lg' -> u < nx) by (intros ? [H|H]; [discriminate|auto]).
+  assert (C4c : forall v, called v lg' -> v < nx).
+  { intros v [t [c [k [rn [H|H]]]]].
+    - inversion H; subst. auto.
+    - apply I4c. exists t, c, k, rn. exact H. }
+  assert (C5 : forall t, In t (rmid u ts) -> exists t0 ms,
+        In (EAdd t0 (t_id t) (t_name t) ms (t_cb t) (t_kw t)) lg' /\ t_when t = t0 + 1000 * ms).
+  { intros t Ht. apply in_rmid in Ht as [Ht _]. destruct (I5 t Ht) as [t0 [ms [H1 H2]]].
+    exists t0, ms. split; auto. right; auto. }
+  assert (C6 : forall t, In t (rmid u ts) -> ~ In (EKill (t_id t)) lg' /\ ~ called (t_id t) lg').
+  { intros t Ht. apply in_rmid in Ht as [Ht D]. split.
+    - intros [H|H]; [discriminate|apply (proj1 (I6 t Ht)); auto].
+    - intros [t1 [c [k [rn [H|H]]]]].
+      + inversion H. congruence.
+      + apply (proj2 (I6 t Ht)). exists t1, c, k, rn. exact H. }
+  assert (C7 : forall t0 v n' ms c k, In (EAdd t0 v n' ms c k) lg' ->
+        is_live v (rmid u ts) = true \/ In (EKill v) lg' \/ called_with v c k lg').
+  { intros t0 v n' ms c k [H|H]; [discriminate|].
+    destruct (I7 _ _ _ _ _ _ H) as [A|[A|A]].
+    - destruct (Z.eq_dec v u) as [E|E].
+      + right; right. subst v.
+        destruct (I5 tm Hin) as [t0' [ms' [H1 H2]]]. rewrite Hu in H1.
+        pose proof (add_unique lg I8 _ _ _ _ _ _ _ _ _ _ _ H H1) as EQ. inversion EQ; subst.
+        exists (t_when tm), false. left. reflexivity.
+      + left. apply is_live_in in A as [t [Ht Hv]]. apply is_live_in. exists t. split; auto.
+        apply in_rmid. split; auto. congruence.
+    - right; left; right; auto.
+    - right; right. apply called_with_cons; auto. }
+  assert (C8 : log_ok lg').
+  { cbn. split; auto. destruct (I5 tm Hin) as [t0 [ms [H1 H2]]]. destruct (I6 tm Hin) as [K1 K2].
+    rewrite Hu in *. repeat split; auto. exists t0, (t_name tm), ms. split; auto. }
+  finish_inv.
+Qed.
+
+(* T6: run_now's call, right after its handle was cancelled *)
+Lemma inv_core_runnow nx ts lg n tm tnow :
+  find (name_is n) ts = Some tm -> inv_core nx ts lg ->
+  inv_core nx (rm n ts) (ECall tnow (t_id tm) (t_cb tm) (t_kw tm) true :: EKill (t_id tm) :: lg).
+Proof.
+  intros F I. pose proof (inv_core_remove nx ts lg n tm F I) as J.
+  destruct I as (N1 & N2 & I3 & I4 & I4k & I4c & I5 & I6 & I7 & I8).
+  destruct J as (C1 & C2 & C3 & J4 & J4k & J4c & J5 & J6 & J7 & J8).
+  apply find_name_some in F as [Hin Hn].
+  set (u := t_id tm) in *. set (lg1 := EKill u :: lg) in *.
+  set (lg' := ECall tnow u (t_cb tm) (t_kw tm) true :: lg1).
+  assert (DIFF : forall t, In t (rm n ts) -> t_id t <> u).
+  { intros t Ht E. apply in_rm in Ht as [Ht Hne]. apply Hne. rewrite <- Hn. f_equal.
+    apply (nodup_map_inj t_id ts); auto. }
+  assert (C4 : forall t0 u n ms c k, In (EAdd t0 u n ms c k) lg' -> u < nx)
+    by (intros ? ? ? ? ? ? [H|H]; [discriminate|eauto]).
+  assert (C4k : forall u, In (EKill u) lg' -> u < nx) by (intros ? [H|H]; [discriminate|auto]).
+  assert (C4c : forall v, called v lg' -> v < nx).
+  { intros v [t [c [k [rn [H|H]]]]].
+    - inversion H; subst. apply I3. auto.
+    - apply J4c. exists t, c, k, rn. exact H. }
+  assert (C5 : forall t, In t (rm n ts) -> exists t0 ms,
+        In (EAdd t0 (t_id t) (t_name t) ms (t_cb t) (t_kw t)) lg' /\ t_when t = t0 + 1000 * ms).
+  { intros t Ht. destruct (J5 t Ht) as [t0 [ms [H1 H2]]]. exists t0, ms. split; auto. right; auto. }
+  assert (C6 : forall t, In t (rm n ts) -> ~ In (EKill (t_id t)) lg' /\ ~ called (t_id t) lg').
+  { intros t Ht. pose proof (DIFF t Ht) as D. split.
+    - intros [H|H]; [discriminate|apply (proj1 (J6 t Ht)); auto].
+    - intros [t1 [c [k [rn [H|H]]]]].
+      + inversion H. congruence.
+      + apply (proj2 (J6 t Ht)). exists t1, c, k, rn. exact H. }
+  assert (C7 : forall t0 v n' ms c k, In (EAdd t0 v n' ms c k) lg' ->
+        is_live v (rm n ts) = true \/ In (EKill v) lg' \/ called_with v c k lg').
+  { intros t0 v n' ms c k [H|H]; [discriminate|].
+    destruct (J7 _ _ _ _ _ _ H) as [A|[A|A]]; auto.
+    - right; left; right; auto.
+    - right; right. apply called_with_cons; auto. }
+  assert (C8 : log_ok lg').
+  { cbn. split; [|exact J8]. destruct (I5 tm Hin) as [t0 [ms [H1 H2]]]. destruct (I6 tm Hin) as [K1 K2].
+    split; [|split].
+    - exists t0, (t_name tm), ms. split; [right; exact H1|discriminate].
+    - intro H. apply K2. eapply called_cons_other; eauto. intros; discriminate.
+    - exists lg. reflexivity. }
+  finish_inv.
+Qed.
+
+(* ---------------------------------------------------------------------------------------- *)
+(* operations preserve the invariant *)
+Definition call_ok (call : callfn) : Prop :=
+  forall u c k rn st, Inv (emit (ECall (now st) u c k rn) st) -> Inv (call u c k rn st).
+
+Lemma Inv_emit_harmless e st : harmless e -> Inv st -> Inv (emit e st).
+Proof. intros He [D I]. split; cbn; auto. apply inv_core_harmless; auto. Qed.
+
+Lemma check_live st n : wf st -> check st n = live_name n (timers st).
+Proof.
+  intros [D _]. unfold check, live_name. rewrite D, dict_find_map, existsb_find.
+  destruct (find (name_is n) (timers st)); reflexivity.
+Qed.
+
+Lemma Inv_do_check n st : Inv st -> Inv (do_check n st).
+Proof. intro I. apply Inv_emit_harmless; auto. cbn. apply check_live. apply Inv_wf; auto. Qed.
+
+Lemma Inv_skip_id st : Inv st -> Inv (skip_id st).
+Proof. intros [D I]. split; cbn; auto. apply inv_core_skip; auto. Qed.
+
+Lemma Inv_do_add ms n0 cb kw st : Inv st -> Inv (do_add ms n0 cb kw st).
+Proof.
+  intros [D I]. unfold do_add.
+  set (n := if n0 <? 0 then -1 - next st else n0).
+  set (st0 := mkS (now st) (next st + 1) (dict st) (timers st) (log st)).
+  assert (W0 : wf st0) by (destruct I as (N1 & N2 & _); repeat split; auto).
+  rewrite do_remove_nf by exact W0.
+  assert (I1 : dict (removed n st0) = map entry_of (timers (removed n st0)) /\
+               inv_core (next st) (timers (removed n st0)) (log (removed n st0))).
+  { unfold removed. cbn. destruct (find (name_is n) (timers st)) as [tm|] eqn:F; cbn; auto.
+    split; auto. apply inv_core_remove; auto. }
+  destruct I1 as [D1 I1].
+  split; cbn.
+  - rewrite D1, map_app. reflexivity.
+  - rewrite next_removed. cbn. apply inv_core_add; auto.
+    intros t Ht. rewrite timers_removed in Ht. cbn in Ht. apply in_rm in Ht as [_ Ht]. exact Ht.
+Qed.
+
+Lemma Inv_do_add_if ms n0 cb kw st : Inv st -> Inv (do_add_if ms n0 cb kw st).
+Proof.
+  intro I. unfold do_add_if. destruct ((0 <=? n0) && check st n0).
+  - apply Inv_skip_id; auto.
+  - apply Inv_do_add; auto.
+Qed.
+
+Lemma Inv_do_reset ms n0 cb kw st : Inv st -> Inv (do_reset ms n0 cb kw st).
+Proof.
+  intro I. unfold do_reset. apply Inv_do_add. destruct ((0 <=? n0) && check st n0); auto.
+  apply Inv_do_remove; auto.
+Qed.
+
+Lemma filter_true {A} (l : list A) : filter (fun _ => true) l = l.
+Proof. induction l; cbn; congruence. Qed.
+
+Lemma filter_filter {A} (p q : A -> bool) (l : list A) :
+  filter q (filter p l) = filter (fun x => p x && q x) l.
+Proof.
+  induction l as [|x l IH]; cbn; auto. destruct (p x); cbn; [destruct (q x)|]; cbn; congruence.
+Qed.
+
+Lemma filter_nil_all {A} (p : A -> bool) (l : list A) : (forall x, In x l -> p x = false) -> filter p l = [].
+Proof.
+  induction l as [|x l IH]; cbn; intro H; auto. rewrite (H x) by auto. apply IH. intros; apply H; auto.
+Qed.
+
+Lemma fold_remove_inv names : forall st, Inv st ->
+  Inv (fold_left clear_one names st) /\
+  timers (fold_left clear_one names st) =
+    filter (fun t => negb (existsb (Z.eqb (t_name t)) names)) (timers st).
+Proof.
+  induction names as [|n names IH]; intros st I; cbn.
+  - split; auto. symmetry. apply filter_true.
+  - rewrite clear_one_eq. pose proof (Inv_do_remove n st I) as I'.
+    destruct (IH _ I') as [J T]. split; auto. rewrite T.
+    rewrite do_remove_nf by (apply Inv_wf; auto). rewrite timers_removed. unfold rm.
+    rewrite filter_filter. apply filter_ext. intro t. unfold name_is.
+    rewrite negb_orb. reflexivity.
+Qed.
+
+Lemma Inv_do_clear st : Inv st -> Inv (do_clear st).
+Proof.
+  intro I. destruct (fold_remove_inv (map e_name (dict st)) st I) as [[D J] T].
+  assert (E : timers (fold_left clear_one (map e_name (dict st)) st) = []).
+  { rewrite T. destruct I as [D0 _]. rewrite D0.
+    apply filter_nil_all. intros t Ht. apply negb_false_iff. apply existsb_exists.
+    exists (t_name t). split; [|apply Z.eqb_refl].
+    rewrite map_map. cbn. apply in_map. exact Ht. }
+  unfold do_clear. split; cbn.
+  - rewrite E. reflexivity.
+  - exact J.
+Qed.
+
+Lemma Inv_do_run_now call n st : call_ok call -> Inv st -> Inv (do_run_now false call n st).
+Proof.
+  intros CO I. pose proof I as [D IC]. unfold do_run_now.
+  rewrite D, dict_find_map. destruct (find (name_is n) (timers st)) as [tm|] eqn:F; cbn; auto.
+  apply CO. rewrite do_remove_nf by (apply Inv_wf; auto). unfold removed. rewrite F.
+  split; cbn; auto. apply inv_core_runnow; auto.
+Qed.
+
+Lemma exec_op_inv call o st : call_ok call -> Inv st -> Inv (exec_op false call o st).
+Proof.
+  intros CO I. destruct o; cbn.
+  - apply Inv_do_add; auto.
+  - apply Inv_do_add_if; auto.
+  - apply Inv_do_reset; auto.
+  - apply Inv_do_remove; auto.
+  - apply Inv_do_clear; auto.
+  - apply Inv_do_run_now; auto.
+  - apply Inv_do_check; auto.
+Qed.
+
+Lemma exec_ops_inv call ops : call_ok call -> forall st, Inv st -> Inv (exec_ops false call ops st).
+Proof.
+  intro CO. unfold exec_ops. induction ops as [|o ops IH]; cbn; intros st I; auto.
+  apply IH. apply exec_op_inv; auto.
+Qed.
+
+Lemma call_cb_ok scripts fuel : call_ok (call_cb false scripts fuel).
+Proof.
+  induction fuel as [|f IH]; intros u c k rn st I; cbn.
+  - apply Inv_emit_harmless; cbn; auto.
+  - apply exec_ops_inv; auto.
+Qed.
+
+Lemma Inv_with_now t st : Inv st -> Inv (mkS t (next st) (dict st) (timers st) (log st)).
+Proof. intros [D I]. split; auto. Qed.
+
+Lemma Inv_fire call u st : call_ok call -> Inv st -> Inv (fire call u st).
+Proof.
+  intros CO I. pose proof I as [D IC]. unfold fire, find_timer.
+  destruct (find (id_is u) (timers st)) as [tm|] eqn:F.
+  - destruct ((now st <=? t_when tm) && forallb (fun t' => t_when tm <=? t_when t') (timers st)).
+    + apply CO. pose proof IC as (N1 & N2 & _). pose proof (find_id_some _ _ _ F) as [Hin Hu].
+      split; cbn.
+      * rewrite D, dict_del_map. f_equal. fold (rmid u (timers st)). rewrite <- Hu. symmetry.
+        apply rmid_rm; auto.
+      * fold (rmid u (timers st)). apply inv_core_fire; auto.
+    + apply Inv_emit_harmless; cbn; auto.
+  - apply Inv_emit_harmless; cbn; auto.
+Qed.
+
+Lemma Inv_do_step scripts st s : Inv st -> Inv (do_step false scripts st s).
+Proof.
+  intro I. destruct s as [t ops|u]; unfold do_step.
+  - destruct (ext_ok t st).
+    + apply Inv_emit_harmless; [exact Logic.I|]. apply exec_ops_inv; [apply call_cb_ok|].
+      apply Inv_with_now; auto.
+    + apply Inv_emit_harmless; [exact Logic.I|auto].
+  - apply Inv_fire; auto. apply call_cb_ok.
+Qed.
+
+Lemma Inv_init : Inv init.
+Proof.
+  split; cbn; auto. unfold inv_core. cbn.
+  repeat split; try constructor; try contradiction; intros;
+    try match goal with H : called _ [] |- _ => destruct H as [? [? [? [? []]]]] end.
+Qed.
+
+Lemma Inv_run scripts steps : forall st, Inv st -> Inv (run_from false scripts steps st).
+Proof.
+  unfold run_from. induction steps as [|s steps IH]; cbn; intros st I; auto.
+  apply IH. apply Inv_do_step; auto.
+Qed.
+
+Lemma Inv_reach scripts steps : Inv (run_from false scripts steps init).
+Proof. apply Inv_run. apply Inv_init. Qed.
+
+(* ---------------------------------------------------------------------------------------- *)
+(* statements about whole histories *)
+Lemma trace_split_log legacy scripts steps pre e post :
+  trace legacy scripts steps = pre ++ e :: post ->
+  log (run_from legacy scripts steps init) = List.rev post ++ e :: List.rev pre.
+Proof.
+  unfold trace. intro H. apply (f_equal (@List.rev ev)) in H. rewrite rev_involutive in H.
+  rewrite H, rev_app_distr. cbn. rewrite <- app_assoc. reflexivity.
+Qed.
+
+Lemma calls_justified_l scripts steps pre e post :
+  trace false scripts steps = pre ++ e :: post -> justified (List.rev pre) e.
+Proof.
+  intro H. apply trace_split_log in H.
+  destruct (Inv_reach scripts steps) as [_ I]. destruct I as (_ & _ & _ & _ & _ & _ & _ & _ & _ & L).
+  eapply log_ok_split; eauto.
+Qed.
+
+Lemma check_truthful_l scripts steps n b g :
+  In (ECheck n b g) (trace false scripts steps) -> b = g.
+Proof.
+  intro H. apply in_split in H as [pre [post H]]. apply calls_justified_l in H. exact H.
+Qed.
+
+Lemma check_truthful_state_l scripts steps n :
+  let st := run_from false scripts steps init in
+  check st n = true <-> exists tm, In tm (timers st) /\ t_name tm = n.
+Proof.
+  cbv zeta. rewrite check_live by (apply Inv_wf, Inv_reach). unfold live_name. rewrite existsb_exists.
+  unfold name_is. split; intros [tm [H1 H2]]; exists tm; split; auto; apply Z.eqb_eq; auto.
+Qed.
+
+Lemma never_twice_l scripts steps l1 l2 l3 t u c k rn t' c' k' rn' :
+  trace false scripts steps = l1 ++ ECall t u c k rn :: l2 ++ ECall t' u c' k' rn' :: l3 -> False.
+Proof.
+  intro H.
+  replace (l1 ++ ECall t u c k rn :: l2 ++ ECall t' u c' k' rn' :: l3)
+    with ((l1 ++ ECall t u c k rn :: l2) ++ ECall t' u c' k' rn' :: l3) in H
+    by (rewrite <- app_assoc; reflexivity).
+  apply calls_justified_l in H. cbn in H. destruct H as [_ [NC _]]. apply NC.
+  exists t, c, k, rn. rewrite rev_app_distr. cbn. apply in_or_app. left. apply in_or_app. right. left. reflexivity.
+Qed.
+
+Lemma fires_unless_cancelled_l scripts steps t t0 u n ms c k :
+  let st := run_from false scripts steps init in
+  ext_ok t st = true ->
+  In (EAdd t0 u n ms c k) (log st) -> t0 + 1000 * ms < t ->
+  In (EKill u) (log st) \/ In (ECall (t0 + 1000 * ms) u c k false) (log st).
+Proof.
+  cbv zeta. set (st := run_from false scripts steps init). intros OK HA LT.
+  destruct (Inv_reach scripts steps) as [_ I]. fold st in I.
+  destruct I as (N1 & N2 & I3 & I4 & I4k & I4c & I5 & I6 & I7 & I8).
+  destruct (I7 _ _ _ _ _ _ HA) as [A|[A|A]]; auto.
+  - exfalso. apply is_live_in in A as [tm [Hin Hu]].
+    destruct (I5 tm Hin) as [t0' [ms' [H1 H2]]]. rewrite Hu in H1.
+    pose proof (add_unique _ I8 _ _ _ _ _ _ _ _ _ _ _ HA H1) as EQ. inversion EQ; subst.
+    unfold ext_ok in OK. apply andb_true_iff in OK as [_ OK]. rewrite forallb_forall in OK.
+    specialize (OK tm Hin). apply Z.leb_le in OK. lia.
+  - destruct A as [tt [rn HC]]. destruct (log_ok_in _ _ I8 HC) as [l1 [l2 [E J]]]. cbn in J.
+    destruct J as [[t0' [n' [ms' [HA' HT]]]] [_ K]].
+    assert (HA2 : In (EAdd t0' u n' ms' c k) (log st)).
+    { rewrite E. apply in_or_app. right. right. exact HA'. }
+    pose proof (add_unique _ I8 _ _ _ _ _ _ _ _ _ _ _ HA HA2) as EQ. inversion EQ; subst.
+    destruct rn.
+    + left. destruct K as [past' K]. rewrite E, K. apply in_or_app. right. right. left. reflexivity.
+    + right. rewrite (HT eq_refl) in HC. exact HC.
+Qed.
+
+(* run_now: same callback, same kwargs, scheduled call cancelled first *)
+Lemma run_now_same_args_l scripts steps call n tm :
+  let st := run_from false scripts steps init in
+  find (name_is n) (timers st) = Some tm ->
+  do_run_now false call n st =
+    call (t_id tm) (t_cb tm) (t_kw tm) true
+         (mkS (now st) (next st) (map entry_of (rm n (timers st))) (rm n (timers st))
+              (EKill (t_id tm) :: log st)).
+Proof.
+  cbv zeta. set (st := run_from false scripts steps init). intro F.
+  pose proof (Inv_reach scripts steps) as I. fold st in I. pose proof I as [D _].
+  unfold do_run_now. rewrite D, dict_find_map, F. cbn.
+  rewrite do_remove_nf by (apply Inv_wf; auto). unfold removed. rewrite F. reflexivity.
+Qed.
+
+Lemma run_now_legacy_drops_kwargs_l :
+  exists scripts steps t0 u n ms c k t k',
+    In (EAdd t0 u n ms c k) (trace true scripts steps) /\
+    In (ECall t u c k' true) (trace true scripts steps) /\ k <> k'.
+Proof.
+  exists [], [Ext 0 [Add 1000 0 (-1) [1; 1]; RunNow 0]], 0, 0, 0, 1000, (-1), [1; 1], 0, [].
+  vm_compute. repeat split; auto; discriminate.
+Qed.
+
+(* which handles an operation cancels *)
+Lemma cancel_scope_l scripts steps :
+  let st := run_from false scripts steps init in
+  (forall n, timers (do_remove n st) = rm n (timers st)) /\
+  (forall ms n cb kw, 0 <= n ->
+      timers (do_add ms n cb kw st) = rm n (timers st) ++ [mkT (next st) (now st + 1000 * ms) n cb kw]) /\
+  timers (do_clear st) = [].
+Proof.
+  cbv zeta. set (st := run_from false scripts steps init).
+  pose proof (Inv_reach scripts steps) as I. fold st in I. pose proof (Inv_wf _ I) as W.
+  split; [|split].
+  - intro n. rewrite do_remove_nf by auto. apply timers_removed.
+  - intros ms n cb kw Hn. unfold do_add. destruct (Z.ltb_spec n 0); [lia|].
+    set (st0 := mkS (now st) (next st + 1) (dict st) (timers st) (log st)).
+    assert (W0 : wf st0) by (destruct W as [D [N1 N2]]; repeat split; auto).
+    rewrite do_remove_nf by exact W0. cbn. rewrite timers_removed. reflexivity.
+  - destruct (fold_remove_inv (map e_name (dict st)) st I) as [_ T].
+    unfold do_clear. cbn. rewrite T. destruct I as [D0 _]. rewrite D0.
+    apply filter_nil_all. intros t Ht. apply negb_false_iff. apply existsb_exists.
+    exists (t_name t). split; [|apply Z.eqb_refl].
+    rewrite map_map. cbn. apply in_map. exact Ht.
+Qed.
+
+(* ---------------------------------------------------------------------------------------- *)
+(* PeriodicTask *)
+Fixpoint pcalls (out : list pev) : list Z :=
+  match out with [] => [] | PCalled t :: r => t :: pcalls r | PReject :: r => pcalls r end.
+
+Fixpoint ticks_desc (t0 ival : Z) (n : nat) : list Z :=
+  match n with O => [] | S m => (t0 + Z.of_nat n * ival) :: ticks_desc t0 ival m end.
+
+Definition pinv (t0 ival : Z) (st : ptask * list pev) : Prop :=
+  p_ival (fst st) = ival /\
+  exists n, pcalls (snd st) = ticks_desc t0 ival n /\
+            (p_cancelled (fst st) = false ->
+             p_last (fst st) = t0 + Z.of_nat n * ival /\ p_handle (fst st) = Some (p_last (fst st) + ival)).
+
+Lemma pinv_step t0 ival st s : pinv t0 ival st -> pinv t0 ival (p_step st s).
+Proof.
+  destruct st as [p out]. intros [IV [n [C H]]]. cbn in *. destruct s; cbn.
+  - destruct (p_handle p) as [w|] eqn:Hh.
+    + destruct (p_now p <=? w).
+      * destruct (p_cancelled p) eqn:Hc.
+        -- split; auto. exists n. split; auto. cbn. discriminate.
+        -- destruct (H eq_refl) as [HL HH]. split; auto. exists (S n). cbn [fst snd pcalls]. split.
+           ++ cbn [ticks_desc]. rewrite C. f_equal. inversion HH. rewrite HL, Nat2Z.inj_succ. lia.
+           ++ intros _. cbn [fst p_last p_handle p_ival]. rewrite IV. split; auto. rewrite HL, Nat2Z.inj_succ. lia.
+      * split; auto. exists n. split; auto. cbn [fst]. rewrite Hh. exact H.
+    + split; auto. exists n. split; auto. cbn [fst]. rewrite Hh. exact H.
+  - destruct (p_time_ok p t); cbn; split; auto; exists n; split; auto. cbn. discriminate.
+  - destruct (p_time_ok p t); cbn; split; auto; exists n; split; auto.
+Qed.
+
+Lemma pinv_run t0 ival steps : pinv t0 ival (p_run t0 ival steps).
+Proof.
+  unfold p_run. assert (I : pinv t0 ival (p_init t0 ival, [])).
+  { split; auto. exists O. cbn. split; auto. intros _. split; [lia|reflexivity]. }
+  revert I. generalize (p_init t0 ival, @nil pev). induction steps as [|s steps IH]; cbn; auto.
+  intros st I. apply IH. apply pinv_step. exact I.
+Qed.
+
+Lemma periodic_no_drift_l t0 ival steps :
+  exists n, pcalls (snd (p_run t0 ival steps)) = ticks_desc t0 ival n.
+Proof. destruct (pinv_run t0 ival steps) as [_ [n [C _]]]. exists n. exact C. Qed.
+
+Lemma periodic_cancel_step st s :
+  p_cancelled (fst st) = true ->
+  p_cancelled (fst (p_step st s)) = true /\ pcalls (snd (p_step st s)) = pcalls (snd st).
+Proof.
+  destruct st as [p out]. cbn. intro Hc. destruct s; cbn.
+  - destruct (p_handle p); [destruct (p_now p <=? z)|]; rewrite ?Hc; cbn; auto.
+  - destruct (p_time_ok p t); cbn; auto.
+  - destruct (p_time_ok p t); cbn; auto.
+Qed.
+
+Lemma periodic_none_after_cancel_l steps : forall st,
+  p_cancelled (fst st) = true ->
+  pcalls (snd (fold_left p_step steps st)) = pcalls (snd st).
+Proof.
+  induction steps as [|s steps IH]; cbn; intros st Hc; auto.
+  destruct (periodic_cancel_step st s Hc) as [H1 H2]. rewrite IH; auto.
+Qed.
+
+(* no tick is skipped: when the outside world looks at time t (accepted PAt) and the task is not cancelled,
+   every tick strictly before t has happened *)
+Lemma periodic_no_missed_tick_l t0 ival steps t :
+  let st := p_run t0 ival steps in
+  p_cancelled (fst st) = false -> p_time_ok (fst st) t = true ->
+  exists n, pcalls (snd st) = ticks_desc t0 ival n /\ t <= t0 + (Z.of_nat n + 1) * ival.
+Proof.
+  cbv zeta. intros Hc OK. destruct (pinv_run t0 ival steps) as [_ [n [C H]]].
+  exists n. split; auto. destruct (H Hc) as [HL HH]. unfold p_time_ok in OK. rewrite HH in OK.
+  apply andb_true_iff in OK as [_ OK]. apply Z.leb_le in OK. lia.
+Qed.
